@@ -1014,6 +1014,18 @@ func SearchStreams(ctx context.Context, indexes []*Reader, limitIDs *bitmask.Lon
 		}
 	}
 
+	// streams with equal sort keys are ordered by their id, the order must not depend on the files the streams are in
+	sortingLessKeys := sortingLess
+	sortingLess = func(a, b *Stream) bool {
+		if sortingLessKeys(a, b) {
+			return true
+		}
+		if sortingLessKeys(b, a) {
+			return false
+		}
+		return a.StreamID < b.StreamID
+	}
+
 	groupingData := (*grouper)(nil)
 	if grouping != nil {
 		groupingKeyMap := map[string]func(s *Stream) []byte{
@@ -1123,10 +1135,12 @@ func SearchStreams(ctx context.Context, indexes []*Reader, limitIDs *bitmask.Lon
 			matchingQueryPart: make([]bitmask.ConnectedBitmask, len(qs)),
 		}
 		sorter := sortingLess
+		sorterKeys := sortingLessKeys
 		resultLimit := limit + skip
 		limitIDs := limitIDs
 		if subQuery != "" {
 			sorter = nil
+			sorterKeys = nil
 			resultLimit = 0
 			limitIDs = nil
 		}
@@ -1169,7 +1183,7 @@ func SearchStreams(ctx context.Context, indexes []*Reader, limitIDs *bitmask.Lon
 				}
 				queryParts = append(queryParts, queryPart)
 			}
-			err := idx.searchStreams(ctx, &results, allResults, queryParts, groupingData, sorter, resultLimit, sortingLookup)
+			err := idx.searchStreams(ctx, &results, allResults, queryParts, groupingData, sorter, sorterKeys, resultLimit, sortingLookup)
 			if err != nil {
 				return nil, false, nil, err
 			}
@@ -1190,7 +1204,7 @@ func SearchStreams(ctx context.Context, indexes []*Reader, limitIDs *bitmask.Lon
 	return results.streams[skip:], results.resultDropped != 0, dataRegexes, nil
 }
 
-func (r *Reader) searchStreams(ctx context.Context, result *resultData, subQueryResults map[string]resultData, queryParts []queryPart, grouper *grouper, sortingLess func(a, b *Stream) bool, limit uint, sortingLookup func() ([]uint32, error)) error {
+func (r *Reader) searchStreams(ctx context.Context, result *resultData, subQueryResults map[string]resultData, queryParts []queryPart, grouper *grouper, sortingLess, sortingLessKeys func(a, b *Stream) bool, limit uint, sortingLookup func() ([]uint32, error)) error {
 	// apply filters to lookup results or all streams, if no lookups could be used
 	filterAndAddToResult := func(activeQueryParts bitmask.ShortBitmask, si uint32) (bool, error) {
 		if err := ctx.Err(); err != nil {
@@ -1214,7 +1228,8 @@ func (r *Reader) searchStreams(ctx context.Context, result *resultData, subQuery
 
 		// check if the sorting and limit would allow this stream
 		if limitReached && !sortingLess(ss, result.streams[limit-1]) {
-			return true, nil
+			// a scan in the order of the sort key ends when the key gets worse, streams with the same key may follow in any order
+			return sortingLessKeys(result.streams[limit-1], ss), nil
 		}
 
 		// check if the sorting within the groupKey allow this stream
@@ -1315,7 +1330,7 @@ func (r *Reader) searchStreams(ctx context.Context, result *resultData, subQuery
 			} else {
 				// we have a limit and are worse than the last
 				result.resultDropped++
-				return true, nil
+				return sortingLessKeys == nil || sortingLessKeys(result.streams[limit-1], ss), nil
 			}
 		}
 
